@@ -300,6 +300,7 @@ pub fn run_c08(ctx: &Ctx) -> i32 {
                     continue;
                 }
             };
+            check_nothing_held("C08", &mut sink, doc(0));
             let msgs: Vec<Message> = res.iter().flat_map(|(m, _)| m.iter().cloned()).collect();
             if msgs.len() != steps.len() {
                 sink.add("C08:pipeline:message-count".into(), format!("{} polls, {} messages", steps.len(), msgs.len()), doc(0));
@@ -672,13 +673,21 @@ pub fn run_c10(ctx: &Ctx) -> i32 {
     let leaps: Vec<u32> = (0..65536u32).step_by(leap_step).collect();
     let chunk = 256;
     let nchunks = (leaps.len() + chunk - 1) / chunk;
-    let now = R0;
+    // the wall-clock instant at which the report is classified: nothing in the statement depends on it. R0 for the
+    // full alphabet; for the leap codes around the documented ones, also the last and the first second of a UTC
+    // day (where a leap second is inserted or deleted), the end of 2016-12-31 (a real insertion), noon, and either
+    // side of 2^31 s
+    let extra_nows: Vec<i128> = vec![R0 + 6399 * S + 200_000_000, R0 + 6399 * S + 999_999_999, R0 + 6400 * S, R0 + 6400 * S + 200_000_000, 1_483_228_799 * S + 500_000_000, 1_483_228_800 * S, R0 - 80_000 * S + 43_200 * S, ((1i128 << 31) - 1) * S + 500_000_000, ((1i128 << 31) + 10) * S];
     // the fields of a report that the classification must not depend on (stratum, source address, last/RMS
     // offset, frequencies, skew) come in four variants (pipeline::AUX_VARIANTS); variant 0 gets every leap code,
     // the others the codes around the documented ones (plus, thorough, every 257th)
     let naux = pipeline::AUX_VARIANTS.len();
-    let parts = par::map(nchunks * naux, |item| {
-        let (ci, aux) = (item % nchunks, pipeline::AUX_VARIANTS[item / nchunks]);
+    let parts = par::map(nchunks * naux + extra_nows.len(), |item| {
+        let special = item >= nchunks * naux;
+        let now = if special { extra_nows[item - nchunks * naux] } else { R0 };
+        let (ci, aux) = if special { (0, 0) } else { (item % nchunks, pipeline::AUX_VARIANTS[item / nchunks]) };
+        let small: Vec<u32> = (0..=8u32).chain(65530..65536).collect();
+        let my_leaps: &[u32] = if special { &small } else { &leaps[ci * chunk..((ci + 1) * chunk).min(leaps.len())] };
         pipeline::set_aux_variant(aux);
         let mut sink = Sink::new();
         let mut n = 0u64;
@@ -690,7 +699,7 @@ pub fn run_c10(ctx: &Ctx) -> i32 {
         let mut expect: Vec<(usize, u16, f64, i128, u32, Option<u32>)> = vec![]; // (publication index, leap, interval, age, prefix class, expected)
         let as_of = libc::timespec { tv_sec: 5000, tv_nsec: 1 };
         msgs.push(Out::S1.message(now, 0, as_of));
-        for &leap in &leaps[ci * chunk..((ci + 1) * chunk).min(leaps.len())] {
+        for &leap in my_leaps {
             let leap = leap as u16;
             if aux != 0 && tier == Tier::Quick && !(leap <= 8 || leap >= 65530) {
                 continue;
@@ -701,7 +710,7 @@ pub fn run_c10(ctx: &Ctx) -> i32 {
                 // exact threshold in ns (rounded down) for the age alphabet
                 let t_floor: i128 = ((d.coef as f64) * 2f64.powi(d.exp2 + 3) * 1e9).floor() as i128;
                 let floor_s: i128 = t_floor.div_euclid(S);
-                let mut ages: Vec<i128> = vec![-1, -S, 0, t_floor - 1, t_floor, t_floor + 1, t_floor + 2, (floor_s + 1) * S, floor_s * S, floor_s * S + 1, 1_000_000 * S];
+                let mut ages: Vec<i128> = vec![-1, -S, -500_000_000, -S + 1, -2 * S, 0, t_floor - 1, t_floor, t_floor + 1, t_floor + 2, (floor_s + 1) * S, floor_s * S, floor_s * S + 1, 1_000_000 * S];
                 if leap <= 8 || tier == Tier::Thorough {
                     // ages at which a narrowed / re-scaled age would wrap and look fresh again
                     ages.extend(crate::gridmc::clientgrid::wrap_ages().into_iter().filter(|a| *a > 0));
@@ -733,7 +742,7 @@ pub fn run_c10(ctx: &Ctx) -> i32 {
                     n += 1;
                     let got = recs[pi].status;
                     *classes.entry(format!("{}", status_name(got))).or_insert(0) += 1;
-                    let doc = || json!({"check": "C10", "leap_status": leap, "update_interval_s": iv, "reference_time_age_ns": age.to_string(), "status_before": status_name(pclass), "published_status": status_name(got), "unrelated_report_fields_variant": aux});
+                    let doc = || json!({"check": "C10", "leap_status": leap, "update_interval_s": iv, "reference_time_age_ns": age.to_string(), "status_before": status_name(pclass), "published_status": status_name(got), "unrelated_report_fields_variant": aux, "wall_clock_ns": now.to_string()});
                     match exp {
                         Some(e) => {
                             if leap <= 3 || age < 0 {
@@ -741,7 +750,7 @@ pub fn run_c10(ctx: &Ctx) -> i32 {
                             }
                             if got != e {
                                 let what = if age < 0 { "future-reference-time".to_string() } else if leap <= 2 { if e == 1 { "fresh-sync-report".into() } else { "stale-sync-report".into() } } else if leap == 3 { "leap-3".into() } else { "other-leap".into() };
-                                sink.add(format!("C10:{what}:{}", status_name(got)), format!("leap status {leap}, update interval {iv} s, reference time {age} ns old, previous status {}: published {} but the report classifies as {}", status_name(pclass), status_name(got), status_name(e)), doc());
+                                sink.add(format!("C10:{what}:{}", status_name(got)), format!("leap status {leap}, update interval {iv} s, reference time {age} ns old, previous status {}{}: published {} but the report classifies as {}", status_name(pclass), if now == R0 { String::new() } else { format!(", wall clock {}.{:09} s ({:05}.{:03} s into the UTC day)", now / S, now % S, (now / S) % 86_400, (now % S) / 1_000_000) }, status_name(got), status_name(e)), doc());
                             }
                         }
                         None => {
@@ -903,6 +912,16 @@ fn msg_class(m: &Message) -> String {
     }
 }
 
+thread_local! { static HELD_AFTER_LIFETIME: std::cell::Cell<(usize, usize)> = const { std::cell::Cell::new((0, 0)) }; }
+
+/// After `poller_run`: descriptors the polling loop still holds on the PHC attribute (must be none).
+fn check_nothing_held(prop: &str, sink: &mut Sink, doc: Value) {
+    let (held, polls) = HELD_AFTER_LIFETIME.with(|h| h.replace((0, 0)));
+    if held > 0 {
+        sink.add(format!("{prop}:poller-keeps-descriptors"), format!("after a lifetime of {polls} polls the polling loop still holds {held} open descriptor(s) on the PHC error-bound attribute: every poll that reads the attribute costs one, and once the process's limit is reached (1024 polls under systemd's default) the attribute cannot be opened any more - from then on every report with the PHC as reference is dropped, for good"), doc);
+    }
+}
+
 fn c13_run(steps: &[Step], phc_cfg: bool, dir: &std::path::Path) -> Result<Vec<(Vec<String>, String)>, String> {
     poller_run(steps, phc_cfg, dir, true).map(|v| v.into_iter().map(|(m, e)| (m.iter().map(msg_class).collect(), e)).collect())
 }
@@ -929,6 +948,7 @@ fn poller_run(steps: &[Step], phc_cfg: bool, dir: &std::path::Path, vary_report:
         }
         let st = std::rc::Rc::new(std::cell::RefCell::new(St { now: m0, real_off: 0, last_good: m0 - 5 * S, poll_start: m0, expected: vec![], digest: 0 }));
         let mut life = PollerLife::new();
+        crate::common::iofault::track_opens_of("/phc_error_bound");
         let (s1, steps1, file1) = (st.clone(), steps_v.clone(), phc_file.clone());
         let step = move |k: usize| -> Query {
             let stp = steps1[k];
@@ -1000,6 +1020,11 @@ fn poller_run(steps: &[Step], phc_cfg: bool, dir: &std::path::Path, vary_report:
         let phc = if phc_cfg { Some(PhcInfo { refid: ID_A, sysfs_error_bound_path: phc_file.clone() }) } else { None };
         let msgs = life.run_lifetime(phc, steps_v.len(), step, after);
         crate::common::iofault::clear();
+        // what the lifetime holds on to when it is over: descriptors on the PHC attribute (opened by this thread since
+        // `track_opens_of` and not closed - the interposed open/close in common/iofault.rs keep the account). A poll that leaves one open behaves the same for a thousand
+        // polls and then never reads the attribute again - no bounded history shows that; the count after a few does.
+        let held = crate::common::iofault::take_tracked();
+        HELD_AFTER_LIFETIME.with(|h| h.set((held, steps_v.len())));
         let exp = st.borrow().expected.clone();
         let mut out: Vec<(Vec<Message>, String)> = msgs.into_iter().zip(exp).collect();
         // a lifetime that ended early (the loop returned by itself) has fewer iterations than steps
@@ -1074,7 +1099,9 @@ pub fn run_c13(ctx: &Ctx) -> i32 {
             steps.extend(t.iter().cloned());
             n += 1;
             let doc = |k: usize, got: &Vec<String>, exp: &str| json!({"check": "C13", "phc_configured": phc_cfg, "report_field_variant": aux, "steps": steps.iter().map(|s| json!({"answer": format!("{:?}", s.ans), "phc_file_readable": s.phc_readable, "phc_read_errno": s.phc_read_errno, "gap_ms": s.gap_ms, "reply_latency_ms": s.latency_ms, "realtime_clock_stepped_by_ms": s.wall_step_ms})).collect::<Vec<_>>(), "failing_step": k, "observed": got, "expected": exp});
-            match c13_run(&steps, phc_cfg, &dir) {
+            let r13 = c13_run(&steps, phc_cfg, &dir);
+            check_nothing_held("C13", &mut sink, doc(0, &vec![], "no descriptor left open"));
+            match r13 {
                 Ok(res) => {
                     for (k, (got, exp)) in res.iter().enumerate() {
                         if got.len() != 1 {
@@ -1546,7 +1573,9 @@ pub fn run_c12(ctx: &Ctx) -> i32 {
             n += 1;
             let doc = |k: usize| json!({"check": "C12", "side": "daemon", "phase": "histories", "phc_configured": phc_cfg, "failing_step": k,
                 "steps": seq.iter().map(|s| json!({"answer": format!("{:?}", s.ans), "phc_file_readable": s.phc_readable, "gap_ms": s.gap_ms, "reply_latency_ms": s.latency_ms})).collect::<Vec<_>>()});
-            match poller_run(seq, phc_cfg, &dir, false) {
+            let r12 = poller_run(seq, phc_cfg, &dir, false);
+            check_nothing_held("C12", &mut sink, doc(0));
+            match r12 {
                 Ok(res) => {
                     // poll k starts at m0 + sum(gaps up to k) + sum(latencies before k)
                     let mut start = 5000 * S;
@@ -1659,13 +1688,14 @@ fn replay(ctx: &Ctx, path: &std::path::Path) -> i32 {
                 _ => Out::S1,
             };
             let as_of = libc::timespec { tv_sec: 5000, tv_nsec: 1 };
+            let now: i128 = c["wall_clock_ns"].as_str().and_then(|x| x.parse().ok()).unwrap_or(R0);
             let ib = encode_float(iv);
             let mut runs = vec![];
             for _ in 0..2 {
                 pipeline::set_aux_variant(aux);
-                let t = TrackSpec { ref_id: 0, leap, ref_time_ns: R0 - age, offset_bits: encode_float(0.001), delay_bits: encode_float(0.01), disp_bits: encode_float(0.01), interval_bits: ib };
-                let msgs = vec![Out::S1.message(R0, 0, as_of), prefix.message(R0, 0, as_of), Message::ClockErrorBoundData((tracking_of(&t), 0, as_of))];
-                vclock::arm(VClock { real_ns: R0, mono_ns: 5001 * S, auto_advance_ns: 0, fail_errno: 0, fail_clock: -1 });
+                let t = TrackSpec { ref_id: 0, leap, ref_time_ns: now - age, offset_bits: encode_float(0.001), delay_bits: encode_float(0.01), disp_bits: encode_float(0.01), interval_bits: ib };
+                let msgs = vec![Out::S1.message(now, 0, as_of), prefix.message(now, 0, as_of), Message::ClockErrorBoundData((tracking_of(&t), 0, as_of))];
+                vclock::arm(VClock { real_ns: now, mono_ns: 5001 * S, auto_advance_ns: 0, fail_errno: 0, fail_clock: -1 });
                 let r = std::panic::catch_unwind(|| pipeline::published_for(msgs, 1000));
                 vclock::disarm();
                 pipeline::set_aux_variant(0);
